@@ -1,5 +1,5 @@
 """C16: std timing utilities are exact to the clock."""
-import random, time
+import random, time, os, json, subprocess
 import vlib, product, gen_seq
 from adl import *  # noqa
 
@@ -379,6 +379,105 @@ def periodic_designs(tier):
     return ents
 
 
+def duration_designs(tier):
+    """C16: "Duration arguments are converted with the context's clock period": the same components given a std.Duration, in a
+    context whose clock has a frequency, against the reference description with the tick count of spec/Durations.tla"""
+    ents = []
+    k = 0
+
+    def coro(tag, clock, stmts_src, body, waiter=None):
+        nonlocal k
+        name = f"E16T_{k:03d}"
+        src = f"""
+class {name}(cohdl.Entity):
+    clk = Port.input(Bit)
+    a = Port.input(Bit)
+    b = Port.input(Bit)
+    o = Port.output(Unsigned[3], default=0)
+    p = Port.output(Bit, default=False)
+    q = Port.output(Unsigned[2], default=0)
+
+    def architecture(self):
+        {('waiter = std.Waiter(' + waiter + ')') if waiter else 'pass'}
+
+        @std.sequential(std.Clock(self.clk, frequency={clock}))
+        async def proc():
+{stmts_src}
+"""
+        ports = gen_seq.base_ports(False) + [port("o", "out", U3, default=0), port("p", "out", BIT, default=0), port("q", "out", U2, default=0)]
+        e = entity(name, ports, [obj("v", "variable", U2, default=0)], [seq_ctx("proc", body, coroutine=True)])
+        e["source_override"] = src
+        e["family"] = tag
+        e["waiter_max"] = 7
+        ents.append(e)
+        k += 1
+
+    I = "            "
+    for clock, per_ps in (("std.MHz(100)", 10000), ("std.MHz(250)", 4000), ("std.kHz(500)", 2000000)):
+        for n in (1, 2, 3, 5):
+            d_ps = n * per_ps
+            dur = f"std.Duration.picoseconds({d_ps})" if per_ps % 1000 else (f"std.ns({d_ps // 1000})" if d_ps < 10**6 else f"std.us({d_ps // 10**6})")
+            coro(f"duration_wait_std_{clock}_{n}", clock, f"{I}self.o <<= 1\n{I}await std.wait_for({dur})\n{I}self.o <<= 2\n{I}await self.a",
+                 [m(1), waitfor(n), m(2), await_(ref("a"))])
+            if n in (2, 5):
+                coro(f"duration_wait_waiter_{clock}_{n}", clock, f"{I}self.o <<= 1\n{I}await waiter.wait_for({dur})\n{I}self.o <<= 2\n{I}await self.a",
+                     [m(1), waitfor(n, via="waiter"), m(2), await_(ref("a"))], waiter=f"std.Duration.picoseconds({7 * per_ps})")
+    for via, wsrc in (("std", None), ("waiter", "std.ns(70)")):
+        call_ = "std.wait_for" if via == "std" else "waiter.wait_for"
+        coro(f"duration_wait_{via}_allow_zero", "std.MHz(100)", f"{I}self.o <<= 1\n{I}await {call_}(std.ns(30), allow_zero=True)\n{I}self.o <<= 2\n{I}await self.a",
+             [m(1), waitfor(3, allow_zero=True, via=via), m(2), await_(ref("a"))], waiter=wsrc)
+    # ToggleSignal / ClockDivider / debounce with Duration arguments: reuse the tick-count references
+    for (a, b), clock, per_ps in (((2, 1), "std.MHz(100)", 10000), ((1, 3), "std.MHz(250)", 4000)):
+        e = toggle_design(f"E16T_{k:03d}", a, b, 0, 1, 0, False)
+        e["source_override"] = e["source_override"].replace("std.Clock(self.clk)", f"std.Clock(self.clk, frequency={clock})", 1) \
+            .replace(f"std.ToggleSignal(ctx, {a}, {b},", f"std.ToggleSignal(ctx, std.Duration.picoseconds({a * per_ps}), std.Duration.picoseconds({b * per_ps}),")
+        assert "picoseconds" in e["source_override"]
+        e["family"] = "duration_" + e["family"]
+        ents.append(e)
+        k += 1
+    for d, clock, per_ps in ((3, "std.MHz(100)", 10000), (4, "std.kHz(500)", 2000000)):
+        e = clkdiv_design(f"E16T_{k:03d}", d, 0, 0, 0, False)
+        e["source_override"] = e["source_override"].replace("std.Clock(self.clk)", f"std.Clock(self.clk, frequency={clock})", 1) \
+            .replace(f"std.ClockDivider(ctx, {d},", f"std.ClockDivider(ctx, std.Duration.picoseconds({d * per_ps}),")
+        assert "picoseconds" in e["source_override"]
+        e["family"] = "duration_" + e["family"]
+        ents.append(e)
+        k += 1
+    for period, clock, per_ps in ((3, "std.MHz(100)", 10000),):
+        e = debounce_asbuilt_design(f"E16T_{k:03d}", period, 0)
+        e["source_override"] = e["source_override"].replace("std.Clock(self.clk)", f"std.Clock(self.clk, frequency={clock})", 1) \
+            .replace(f"std.debounce(ctx, self.a, {period},", f"std.debounce(ctx, self.a, std.ns({period * per_ps // 1000}),")
+        assert "std.ns" in e["source_override"]
+        e["family"] = "duration_" + e["family"]
+        ents.append(e)
+        k += 1
+    return ents
+
+
+def duration_conversions(tier, scratch, V):
+    """Python-level: Duration.count_periods on a grid of unit constructors x frequencies, validated by TLC against Durations.tla"""
+    out = os.path.join(scratch, "c16_dur.json")
+    env = dict(os.environ, PYTHONPATH=vlib.REPO, PYTHONHASHSEED="0")
+    p = subprocess.run([vlib.VENV_PY, os.path.join(vlib.VERIF, "harness", "pyobs_c16.py"), tier, out], env=env, capture_output=True, text=True, cwd=scratch)
+    if p.returncode != 0:
+        V.machinery_error("pyobs_c16 failed: " + p.stderr[-1500:])
+        return 0
+    cases = json.load(open(out))["cases"]
+    shards = vlib.shard(cases, 4)
+    res = vlib.run_tlc_shards("MC_Durations.tla", "MC_Durations.cfg", [{"cases": s} for s in shards], scratch, timeout=600)
+    checked = 0
+    for sh, r in zip(shards, res):
+        pr = r["parsed"]
+        if r["timeout"] or pr["errors"] or "cases" not in pr["stat"]:
+            V.machinery_error("MC_Durations: " + " / ".join(pr["errors"][:3]) + r["out"][-600:])
+            continue
+        checked += pr["stat"]["cases"][0]
+        for i, f in pr["viol"]:
+            c = sh[i - 1]
+            V.violation(f"duration-ticks:{c['how']}|d={c['d']}ps p={c['p']}ps -> {c['r']}", {"clause": "Durations.Ticks", "case": c})
+    return checked
+
+
 def component_designs(tier):
     ents = []
     k = 0
@@ -406,9 +505,13 @@ def component_designs(tier):
 
 
 def run(tier):
-    ents = wait_designs(tier) + component_designs(tier) + periodic_designs(tier)
+    t0 = time.time()
+    ents = wait_designs(tier) + component_designs(tier) + periodic_designs(tier) + duration_designs(tier)
+    V = vlib.Verdict("C16")
     with vlib.Scratch() as scratch:
-        return product.run("C16", tier, ents, lambda e: 0, scratch, timeout=1500 if tier == "quick" else 6000,
+        conv = duration_conversions(tier, scratch, V)
+        return product.run("C16", tier, ents, lambda e: 0, scratch, timeout=1500 if tier == "quick" else 6000, verdict=V,
+                           extra_cov={"duration_conversions_checked": conv},
                            rule="std.wait_for / Waiter.wait_for with constant n, run-time n (all values of a 3-bit port) and allow_zero, "
                                 "reached after a statement, after an await, twice in a row, in a loop and as the first statement; "
                                 "std.delayed, continuous_counter and debounce against reference descriptions written from their docstrings; "
